@@ -146,3 +146,12 @@ Proof.
   - apply run_coh; [apply coh_init|exact Hco].
 Qed.
 Print Assumptions C11_convergence_from_any_running_world.
+
+(* the ClusterCIDR informer likewise: replaying the pending ClusterCIDR notifications onto the store yields the API objects,
+   in every history without a ClusterCIDR relist *)
+Theorem C11_clustercidr_informer_coherence :
+  forall po lab ops, Forall cohc_op ops ->
+  let w := run po lab init_world ops in
+  w_synced w = true -> replay_c (w_ccache w) (w_cfeed w) = w_ccs w.
+Proof. intros po lab ops H w. exact (cc_sync _ (run_cohc po lab ops init_world cohc_init H)). Qed.
+Print Assumptions C11_clustercidr_informer_coherence.
